@@ -857,6 +857,9 @@ func extractC04Submission(c *Ctx) error {
 	if err := extractC04Flush(c); err != nil {
 		return err
 	}
+	if err := extractC04Getters(c, files); err != nil {
+		return err
+	}
 	c.P("(* x/consensus/module.go EndBlock *)")
 	c.P("Definition endblock_calls : list string := %s.", CoqStrList(calls))
 	c.P("Definition prune_every : Z := %d.", every)
@@ -956,5 +959,67 @@ func extractC04Flush(c *Ctx) error {
 	sort.Strings(wraps)
 	c.P("Definition attest_error_wraps : list string := %s.", CoqStrList(wraps))
 	c.Info("attest_error_wraps", wraps)
+	return nil
+}
+
+// ---- how the two end-block loops obtain the messages of a queue: the whole queue (GetMessagesFromQueue(_, _, 0),
+// ranged over as it is); a count argument, a slice bound or another getter is an unknown shape ----
+func extractC04Getters(c *Ctx, files []*ast.File) error {
+	var out []string
+	for _, fn := range []string{"CheckAndProcessAttestedMessages", "CheckAndProcessEstimatedMessages"} {
+		fd := FindFuncIn(files, "Keeper", fn)
+		if fd == nil {
+			return fmt.Errorf("Keeper.%s not found", fn)
+		}
+		calls := Calls(fd.Body, "GetMessagesFromQueue")
+		if len(calls) != 1 || len(calls[0].Args) != 3 {
+			return fmt.Errorf("%s: expected exactly one GetMessagesFromQueue(ctx, queue, n) (unknown shape)", fn)
+		}
+		if n := c.Src(calls[0].Args[2]); n != "0" {
+			return fmt.Errorf("%s: the messages of a queue are fetched with a bound (%s): messages behind it are never looked at (unknown shape)", fn, n)
+		}
+		ranged := 0
+		var bad error
+		ast.Inspect(fd.Body, func(x ast.Node) bool {
+			switch v := x.(type) {
+			case *ast.RangeStmt:
+				if id, ok := v.X.(*ast.Ident); ok && id.Name == "msgs" {
+					ranged++
+				} else if strings.Contains(c.Src(v.X), "msgs") {
+					bad = fmt.Errorf("%s: the loop ranges over %q instead of the fetched messages (unknown shape)", fn, c.Src(v.X))
+				}
+			case *ast.AssignStmt:
+				for i, l := range v.Lhs {
+					if c.Src(l) == "msgs" && i < len(v.Rhs) && !strings.Contains(c.Src(v.Rhs[i]), "GetMessagesFromQueue") && len(v.Lhs) == len(v.Rhs) {
+						bad = fmt.Errorf("%s: the fetched messages are re-assigned (%s) (unknown shape)", fn, c.Src(v))
+					}
+				}
+			}
+			return bad == nil
+		})
+		if bad != nil {
+			return bad
+		}
+		if ranged != 1 {
+			return fmt.Errorf("%s: expected exactly one loop over the fetched messages", fn)
+		}
+		out = append(out, fn+": "+c.Src(calls[0]))
+	}
+	gd := FindFuncIn(files, "Keeper", "GetMessagesFromQueue")
+	if gd == nil {
+		return fmt.Errorf("Keeper.GetMessagesFromQueue not found")
+	}
+	bound := ""
+	for _, st := range gd.Body.List {
+		if is, ok := st.(*ast.IfStmt); ok && strings.Contains(c.Src(is.Body), "msgs[:") {
+			bound = strings.Join(strings.Fields("if "+c.Src(is.Cond)+" "+c.Src(is.Body)), " ")
+		}
+	}
+	if bound != "if n > 0 && len(msgs) > n { msgs = msgs[:n] }" || len(Calls(gd.Body, "GetAll")) != 1 {
+		return fmt.Errorf("GetMessagesFromQueue: bound %q not understood (expected: everything of GetAll unless n > 0)", bound)
+	}
+	c.P("(* x/consensus/keeper: how the end-block loops obtain the messages of a queue *)")
+	c.P("Definition endblock_message_getters : list string := %s.", CoqStrList(out))
+	c.Info("endblock_message_getters", out)
 	return nil
 }
